@@ -49,12 +49,12 @@ fn other_key(pool: &[KeyInfo], r: &mut Rng, avoid: &[usize]) -> usize {
 /// Inject one fault of the family relevant to `prop` into a valid scenario.
 pub(crate) fn inject(prop: &str, s: &mut Scenario, r: &mut Rng, pool: &[KeyInfo]) -> Option<Fault> {
     let kinds: &[&str] = match prop {
-        "C01" => &["caller_empty", "caller_superset", "caller_disjoint", "caller_alias", "owner_sig_missing", "owner_sig_corrupt", "owner_sig_mislabel", "owner_sig_duplicated", "owner_sig_duplicated_apart", "layout_tampered", "layout_command_resplit", "not_a_layout", "extra_sig", "layout_keys_refiled", "layout_keys_refiled", "none"],
+        "C01" => &["caller_empty", "caller_superset", "caller_disjoint", "caller_alias", "caller_alias_described", "caller_alias_described", "owner_sig_missing", "owner_sig_corrupt", "owner_sig_mislabel", "owner_sig_duplicated", "owner_sig_duplicated_apart", "layout_tampered", "layout_command_resplit", "not_a_layout", "extra_sig", "layout_keys_refiled", "layout_keys_refiled", "none"],
         "C06" => &["expired_1s", "expired_long", "expired_centuries", "expires_now", "expires_plus1", "expires_far_future", "offset_notation", "offset_expired", "sub_expired", "sub_expired_surplus", "sub_expired_surplus", "none"],
         "C02" => &["link_removed", "link_wrong_signer", "link_mislabel", "link_tampered", "link_corrupt", "link_unauthorized", "key_not_in_table", "link_garbage", "link_misfiled", "link_cosigned_forgery", "cosigned_next_to_differing", "threshold_zero_nolinks", "threshold_zero_norules", "threshold_zero_norules", "threshold_zero_onelink", "threshold_raised", "link_wrong_type", "ghost_authorized_prefix", "ghost_authorized_prefix", "twin_unauthorized", "twin_unauthorized", "duplicate_step_unmet", "duplicate_step_unmet", "none"],
-        "C07" => &["disagree_product_digest", "disagree_material_path", "disagree_extra_entry", "disagree_t1", "agree_extra_differs", "cosigned_next_to_differing", "disagree_path_spelling", "disagree_alias_entry", "disagree_algorithm_set", "disagree_algorithm_set", "disagree_empty_entry", "none"],
-        "C13" => &["differing_links_t1", "differing_links_t1_rules", "none", "link_removed", "disagree_product_digest", "disagree_extra_entry", "cosigned_next_to_differing", "cosigned_next_to_differing", "digest_partial_agreement", "digest_partial_agreement"],
-        "C08" => &["insp_exit", "insp_notfound", "insp_rule", "insp_rule_named_like_step", "pre_expired", "pre_badsig", "pre_link_removed", "pre_rule", "pre_disagree", "sub_expired", "sub_expired_surplus", "sub_tampered", "none"],
+        "C07" => &["disagree_product_digest", "disagree_material_path", "disagree_extra_entry", "disagree_t1", "agree_extra_differs", "cosigned_next_to_differing", "disagree_path_spelling", "disagree_alias_entry", "disagree_algorithm_set", "disagree_algorithm_set", "disagree_empty_entry", "disagree_moved_across", "disagree_moved_across", "none"],
+        "C13" => &["differing_links_t1", "differing_links_t1_rules", "none", "nested_namesake", "nested_namesake", "nested_namesake", "link_removed", "disagree_product_digest", "disagree_extra_entry", "cosigned_next_to_differing", "cosigned_next_to_differing", "digest_partial_agreement", "digest_partial_agreement"],
+        "C08" => &["insp_exit", "insp_notfound", "insp_rule", "insp_rule_named_like_step", "pre_expired", "pre_badsig", "pre_link_removed", "pre_rule", "pre_disagree", "sub_expired", "sub_expired_surplus", "sub_expired_surplus", "sub_insp_exit_surplus", "sub_insp_exit_surplus", "sub_rule_surplus", "sub_tampered", "none"],
         "C15" => &["no_steps", "no_steps_inner", "sub_wrong_signer", "sub_expired", "sub_missing_link", "sub_links_in_parent", "sub_rule", "sub_unauthorized_inner", "sub_tampered", "sub_insp_exit", "sub_insp_rule", "sub_dir_misnamed", "sub_dir_misnamed", "sub_misfiled", "sub_misfiled", "sub_rule_surplus", "sub_missing_link_surplus", "sub_expired_surplus", "sub_insp_exit_surplus", "none"],
         _ => &["none"],
     };
@@ -87,6 +87,16 @@ pub(crate) fn inject_kind(prop: &str, kind: &str, s: &mut Scenario, r: &mut Rng,
             s.caller_keys = vec![owners[0], owners[0]];
             s.alias_ids = true;
             Some(("C01", "the same key is supplied under two ids".into(), true))
+        }
+        "caller_alias_described" => {
+            // one owner key, supplied twice: once as it is and once read from a description of it that
+            // carries another `keyid` member, filed under that id; the layout lists the owner's one
+            // signature a second time under that id. One key signed once.
+            s.caller_keys = vec![owners[0], owners[0]];
+            s.alias_described = true;
+            s.block.sigs.truncate(1);
+            s.block.dup_first_sig_as = Some(format!("{:064x}", 0xa11a5u64 + 1));
+            Some(("C01", "one key is supplied twice, the second time read from a description with another keyid, and its signature is listed under both ids".into(), true))
         }
         "owner_sig_missing" => {
             s.block.sigs.remove(0);
@@ -465,6 +475,31 @@ pub(crate) fn inject_kind(prop: &str, kind: &str, s: &mut Scenario, r: &mut Rng,
             }
             Some((if prop == "C13" { "C13" } else { "C03" }, format!("a material of {} matches the product of {} under one digest algorithm only", cur, prev), true))
         }
+        "nested_namesake" => {
+            // a sub-layout's own directory holds a further, validly signed link file that is named exactly
+            // like a link file of the enclosing directory but records other artifacts. It belongs to no
+            // step of the sub-layout and is none of the enclosing layout's evidence: it changes nothing.
+            if s.dir.subs.is_empty() {
+                return None;
+            }
+            let cands: Vec<usize> = (0..s.dir.files.len()).filter(|&i| matches!(&s.dir.files[i].1, SFile::Block(b) if matches!(b.meta, SMeta::Link(_)))).collect();
+            if cands.is_empty() {
+                return None;
+            }
+            let (name, mut f) = s.dir.files[*r.pick(&cands)].clone();
+            if let SFile::Block(b) = &mut f {
+                if let SMeta::Link(lk) = &mut b.meta {
+                    lk.prods.push(("made-elsewhere".into(), 3));
+                    lk.mats.clear();
+                }
+            }
+            let si = r.below(s.dir.subs.len());
+            if s.dir.subs[si].1.files.iter().any(|x| x.0 == name) {
+                return None;
+            }
+            s.dir.subs[si].1.files.push((name, f));
+            None
+        }
         "duplicate_step_unmet" => {
             // a second step of the same name, before or after the first, authorizing only a key that
             // delivers nothing: every step has to be satisfied, whatever it is called
@@ -534,12 +569,22 @@ pub(crate) fn inject_kind(prop: &str, kind: &str, s: &mut Scenario, r: &mut Rng,
         }
         // ---------------------------------------------------------------- C07 / C13
         "disagree_product_digest" | "disagree_material_path" | "disagree_extra_entry" | "disagree_t1" | "agree_extra_differs" | "pre_disagree" | "differing_links_t1" | "differing_links_t1_rules"
-        | "disagree_path_spelling" | "disagree_alias_entry" | "disagree_algorithm_set" | "disagree_empty_entry" => {
+        | "disagree_path_spelling" | "disagree_alias_entry" | "disagree_algorithm_set" | "disagree_empty_entry" | "disagree_moved_across" => {
             let l = layout_mut(&mut s.block)?.clone();
             let want_t2 = !matches!(kind, "disagree_t1" | "differing_links_t1" | "differing_links_t1_rules");
             let si = (0..l.steps.len()).find(|&i| {
-                let n = evidence_files(&s.dir, &l.steps[i].name).len();
-                n >= 2 && ((l.steps[i].threshold >= 2) == want_t2)
+                let ev = evidence_files(&s.dir, &l.steps[i].name);
+                let n = ev.len();
+                // (moving artifacts across the step needs a step whose materials and products are not empty
+                // and have no path in common)
+                let disjoint = ev.first().map_or(false, |&f| match &s.dir.files[f].1 {
+                    SFile::Block(b) => match &b.meta {
+                        SMeta::Link(lk) => !lk.mats.is_empty() && !lk.prods.is_empty() && lk.mats.iter().all(|m| lk.prods.iter().all(|p| p.0 != m.0)),
+                        _ => false,
+                    },
+                    _ => false,
+                });
+                n >= 2 && ((l.steps[i].threshold >= 2) == want_t2) && (kind != "disagree_moved_across" || disjoint)
             })?;
             let mut idx = evidence_files(&s.dir, &l.steps[si].name);
             // which link dissents matters for comparison strategies that do not look at every pair:
@@ -625,6 +670,28 @@ pub(crate) fn inject_kind(prop: &str, kind: &str, s: &mut Scenario, r: &mut Rng,
                         "disagree_extra_entry" | "disagree_t1" => {
                             lk.prods.push(("extra-product".into(), 2));
                         }
+                        "disagree_moved_across" => {
+                            // the same artifacts, but reported on the other side of the step: all
+                            // materials as products, or all products as materials
+                            if lk.mats.is_empty() || lk.prods.is_empty() {
+                                return None;
+                            }
+                            if r.chance(1, 2) {
+                                let m: Vec<(String, u8)> = lk.mats.drain(..).collect();
+                                for e in m {
+                                    if !lk.prods.iter().any(|p| p.0 == e.0) {
+                                        lk.prods.push(e);
+                                    }
+                                }
+                            } else {
+                                let p: Vec<(String, u8)> = lk.prods.drain(..).collect();
+                                for e in p {
+                                    if !lk.mats.iter().any(|m| m.0 == e.0) {
+                                        lk.mats.push(e);
+                                    }
+                                }
+                            }
+                        }
                         "disagree_empty_entry" => {
                             // an entry more, recorded without any digest
                             let arts = if r.chance(1, 2) { &mut lk.prods } else { &mut lk.mats };
@@ -648,7 +715,7 @@ pub(crate) fn inject_kind(prop: &str, kind: &str, s: &mut Scenario, r: &mut Rng,
                     None
                 }
                 "pre_disagree" => Some(("C08", format!("links of a multi-party step disagree ({})", l.steps[si].name), true)),
-                _ => Some(("C07", format!("links of a multi-party step disagree ({}, {})", l.steps[si].name, kind), true)),
+                _ => Some(("C07", format!("links of a multi-party step disagree [{}] ({})", kind, l.steps[si].name), true)),
             }
         }
         // ---------------------------------------------------------------- C08
@@ -912,11 +979,13 @@ pub fn run(cfg: &Cfg, prop: &str) {
     for i in 0..n {
         let depth = match prop {
             "C15" => 1 + r.below(2),
+            // (every third C08 scenario has a delegated step, so that the sub-layout faults apply)
+            "C08" | "C13" if i % 3 == 0 => 1,
             "C13" | "C08" => r.below(2),
             _ => r.below(2),
         };
         let allow_insp = matches!(prop, "C08") || r.chance(1, 4);
-        let mut g = Gen { r: &mut r, pool: &pool, insp_counter, force_delegate: prop == "C15" || (prop == "C06" && i % 3 == 0), multi_party: (prop == "C07" && i % 3 != 0) || (prop == "C13" && i % 3 == 1), co_delegate: prop == "C15" && i % 3 == 0, now: base_now() };
+        let mut g = Gen { r: &mut r, pool: &pool, insp_counter, force_delegate: prop == "C15" || ((prop == "C06" || prop == "C08" || prop == "C13") && i % 3 == 0), multi_party: (prop == "C07" && i % 3 != 0) || (prop == "C13" && i % 3 == 1), co_delegate: prop == "C15" && i % 3 == 0, now: base_now(), reuse_keys: vec![] };
         let mut s = g.valid(depth, allow_insp);
         insp_counter = g.insp_counter;
         if prop == "C08" {
@@ -928,6 +997,10 @@ pub fn run(cfg: &Cfg, prop: &str) {
                     l.inspect.push(SInsp { name: nme.clone(), mats: vec![ArtifactRule::Allow(vp("*"))], prods: vec![ArtifactRule::Allow(vp("*"))], script: Some(script("", &nme, 0, "echo hi > made-by-inspection;")) });
                 }
             }
+        }
+        // (how often a sub-layout's directory holds a link file named like one of the enclosing directory)
+        if s.dir.subs.iter().any(|(_, sd)| sd.files.iter().any(|f| s.dir.files.iter().any(|g| g.0 == f.0))) {
+            sink.stat("scenario/nested-namesake");
         }
         let nfaults = if i % 5 == 0 { 0 } else { 1 };
         let base = s.clone();
@@ -984,6 +1057,16 @@ pub fn run(cfg: &Cfg, prop: &str) {
             let want = s.name.as_ref().map(|n| crate::proto::hexs(n)).unwrap_or_else(|| "-".into());
             let got = out.answer.split(' ').nth(1).unwrap_or("?").to_string();
             sink.oracle(got == want, "the summary link does not carry the requested name", &replay);
+        }
+        // ---- the order in which a directory lists its entries does not matter: the same link directory made
+        //      on a file system that lists by age (tmpfs), entries created in one order and in the opposite one
+        if (prop == "C13" || i % 8 == 0) && std::path::Path::new("/dev/shm").is_dir() {
+            let a = crate::e2e::run_in(&pool, &s, Some(std::path::Path::new("/dev/shm")), false);
+            let b = crate::e2e::run_in(&pool, &s, Some(std::path::Path::new("/dev/shm")), true);
+            if prop == "C13" {
+                sink.oracle(a.answer == out.answer && b.answer == out.answer, "the outcome depends on the order in which the link directory lists its entries", &replay);
+            }
+            sink.stat(if a.answer == out.answer && b.answer == out.answer { "listing-order/same" } else { "listing-order/DIFFERENT" });
         }
         // ---- determinism: the same inputs again (fresh hash seeds) give the same answer
         if prop == "C13" || i % 4 == 0 {
